@@ -361,7 +361,7 @@ func (s *c02State) facts(b *types.Block, now int64, ex c02Exec) string {
 				if box, err := types.GetBox(tx.Data()); err == nil {
 					for _, sub := range box.SubTxList {
 						sh := sub.Hash()
-						ids += "+" + fmt.Sprint(s.id("h", sh[:]))
+						ids += "+" + fmt.Sprint(s.id("h", sh[:])) + "@" + fmt.Sprint(sub.Expiration())
 					}
 				}
 			}
@@ -526,6 +526,16 @@ func (s *c02State) spec(b *types.Block, now int64, ex c02Exec) string {
 	for _, tx := range b.Txs {
 		if tx.Expiration() < uint64(h.Time) || tx.Expiration() > uint64(h.Time)+1800 {
 			return "tx-expiration"
+		}
+		if tx.Type() == params.BoxTx {
+			// the clause "every transaction is unexpired / inside the lifetime window" holds for the transactions inside a box too
+			if box, err := types.GetBox(tx.Data()); err == nil {
+				for _, sub := range box.SubTxList {
+					if sub.Expiration() < uint64(h.Time) || sub.Expiration() > uint64(h.Time)+1800 || sub.Expiration() < tx.Expiration() {
+						return "tx-expiration"
+					}
+				}
+			}
 		}
 		if err := tx.VerifyTxBody(nodeChainID, uint64(h.Time), true); err != nil {
 			return "tx-malformed"
@@ -1032,6 +1042,33 @@ func c02Muts() []c02Mut {
 			m.Txs = append(m.Txs, txTransfer(s.w.FounderKey, keyAddr(s.users[1]), lemo(3), TxOpt{Exp: uint64(m.Time()) + 1801, Msg: fmt.Sprintf("far-%d", s.txSeq)}))
 			return true
 		}},
+		{"Txs:add-box-sub-too-far", func(s *c02State, m, _ *types.Block) bool {
+			// a box that is itself inside the window, carrying a sub-tx that lives past block time + 30 min
+			s.txSeq++
+			sub := txTransfer(s.w.FounderKey, keyAddr(s.users[1]), lemo(3), TxOpt{Exp: uint64(m.Time()) + 1801 + uint64(s.c.Rnd.Intn(1700)), Msg: fmt.Sprintf("boxfar-%d", s.txSeq)})
+			m.Txs = append(m.Txs, txBox(s.w.FounderKey, types.Transactions{sub}, TxOpt{Exp: uint64(m.Time()) + 1 + uint64(s.c.Rnd.Intn(1799)), Msg: fmt.Sprintf("boxfar-box-%d", s.txSeq)}))
+			return true
+		}},
+		{"Txs:add-box-sub-expired", func(s *c02State, m, _ *types.Block) bool {
+			s.txSeq++
+			sub := txTransfer(s.w.FounderKey, keyAddr(s.users[1]), lemo(3), TxOpt{Exp: uint64(m.Time()) - 1, Msg: fmt.Sprintf("boxexp-%d", s.txSeq)})
+			m.Txs = append(m.Txs, txBox(s.w.FounderKey, types.Transactions{sub}, TxOpt{Exp: uint64(m.Time()) + 60, Msg: fmt.Sprintf("boxexp-box-%d", s.txSeq)}))
+			return true
+		}},
+		{"Txs:add-box-sub-before-box", func(s *c02State, m, _ *types.Block) bool {
+			s.txSeq++
+			sub := txTransfer(s.w.FounderKey, keyAddr(s.users[1]), lemo(3), TxOpt{Exp: uint64(m.Time()) + 30, Msg: fmt.Sprintf("boxbef-%d", s.txSeq)})
+			m.Txs = append(m.Txs, txBox(s.w.FounderKey, types.Transactions{sub}, TxOpt{Exp: uint64(m.Time()) + 60, Msg: fmt.Sprintf("boxbef-box-%d", s.txSeq)}))
+			return true
+		}},
+		{"Txs:add-box", func(s *c02State, m, _ *types.Block) bool {
+			// control: a valid box at the edges of the window
+			s.txSeq++
+			be := uint64(m.Time()) + uint64(s.c.Rnd.Intn(1801))
+			sub := txTransfer(s.w.FounderKey, keyAddr(s.users[1]), lemo(3), TxOpt{Exp: be + uint64(s.c.Rnd.Intn(int(uint64(m.Time())+1800-be)+1)), Msg: fmt.Sprintf("boxok-%d", s.txSeq)})
+			m.Txs = append(m.Txs, txBox(s.w.FounderKey, types.Transactions{sub}, TxOpt{Exp: be, Msg: fmt.Sprintf("boxok-box-%d", s.txSeq)}))
+			return true
+		}},
 		{"Txs:add-wrong-chain", func(s *c02State, m, _ *types.Block) bool {
 			s.txSeq++
 			tx := types.NewTransaction(keyAddr(s.w.FounderKey), keyAddr(s.users[1]), lemo(3), 2000000, oneGwei, nil, params.OrdinaryTx, nodeChainID+1, uint64(m.Time())+60, "", fmt.Sprintf("chain-%d", s.txSeq))
@@ -1288,6 +1325,17 @@ func c02Campaign(c *Ctx) {
 			exp := uint64(t) + uint64([]int{0, 1, 60, 600, 1799, 1800}[c.Rnd.Intn(6)])
 			txs = append(txs, txTransfer(from, to, amt, TxOpt{Exp: exp, Msg: fmt.Sprintf("c02-%d", s.txSeq)}))
 		}
+		if n.DM.GetDeputiesCount(parent.Height()+1) == 0 {
+			// the snapshot block of the coming term is not stable at this node yet (a run of blocks without enough
+			// confirms): no deputy list exists for the next height. Deliver the late confirmations first, as a real
+			// network eventually does.
+			c.Count("round:late-confirms-for-term")
+			var sigs []types.SignData
+			for _, k := range w.DeputyKeys {
+				sigs = append(sigs, Confirm(parent, k))
+			}
+			n.BC.InsertConfirms(parent.Height(), parent.Hash(), sigs)
+		}
 		blk, _, err := n.Build(parent, t, txs, nil)
 		if err != nil {
 			c.Fail("c02/harness/build", fmt.Sprintf("cannot build an honest block at height %d: %v", parent.Height()+1, err), nil)
@@ -1341,6 +1389,49 @@ func c02Campaign(c *Ctx) {
 					cases++
 				} else {
 					c.Count("miner-dropped-duplicate-tx")
+				}
+			}
+		}
+		// blocks assembled by the MINER path (which never looks at expirations) around one transaction that is
+		// outside the lifetime window of the block time: fully consistent and signed in turn, so ONLY the
+		// validator's window check (for a box: on the transactions inside it as well) can reject them
+		if c.Rnd.Intn(3) == 0 {
+			s.txSeq++
+			bt := uint64(t)
+			mkSub := func(exp uint64) *types.Transaction {
+				return txTransfer(w.FounderKey, keyAddr(s.users[1]), lemo(3), TxOpt{Exp: exp, Msg: fmt.Sprintf("mw-%d", s.txSeq)})
+			}
+			type wcase struct {
+				name string
+				tx   *types.Transaction
+				bad  bool
+			}
+			be := bt + 1 + uint64(c.Rnd.Intn(1799))
+			all := []wcase{
+				{"box-sub-too-far", txBox(w.FounderKey, types.Transactions{mkSub(bt + 1801 + uint64(c.Rnd.Intn(1700)))}, TxOpt{Exp: be, Msg: fmt.Sprintf("mwb-%d", s.txSeq)}), true},
+				{"box-sub-too-far-by-1", txBox(w.FounderKey, types.Transactions{mkSub(bt + 1801)}, TxOpt{Exp: be, Msg: fmt.Sprintf("mwb-%d", s.txSeq)}), true},
+				{"box-sub-expired", txBox(w.FounderKey, types.Transactions{mkSub(bt - 1)}, TxOpt{Exp: bt - 1, Msg: fmt.Sprintf("mwb-%d", s.txSeq)}), true},
+				{"box-sub-before-box", txBox(w.FounderKey, types.Transactions{mkSub(bt + 5)}, TxOpt{Exp: bt + 60, Msg: fmt.Sprintf("mwb-%d", s.txSeq)}), true},
+				{"box-at-edges", txBox(w.FounderKey, types.Transactions{mkSub(bt + 1800)}, TxOpt{Exp: bt + uint64(c.Rnd.Intn(1801)), Msg: fmt.Sprintf("mwb-%d", s.txSeq)}), false},
+				{"tx-too-far", mkSub(bt + 1801), true},
+				{"tx-expired", mkSub(bt - 1), true},
+			}
+			wc := all[c.Rnd.Intn(len(all))]
+			list := append(append(types.Transactions{}, txs...), wc.tx)
+			if db, _, err := n.Build(parent, t, list, nil); err == nil {
+				has := false
+				for _, tx := range db.Txs {
+					if tx.Hash() == wc.tx.Hash() {
+						has = true
+					}
+				}
+				if has {
+					c.Count("miner-built-window:" + wc.name)
+					deputynode.SetSelfNodeKey(observer)
+					s.runCase(db, "miner-built-window:"+wc.name, !wc.bad && false, probe)
+					cases++
+				} else {
+					c.Count("miner-dropped-window:" + wc.name)
 				}
 			}
 		}
